@@ -102,7 +102,10 @@ def programs(draw, tier):
             elif r < 14:
                 evs = draw(st.lists(st.integers(0, nev - 1), min_size=0, max_size=3, unique=True))
                 c = {'op': 'cond', 'kind': draw(st.sampled_from(['any', 'all'])), 'evs': evs}
-                if draw(st.integers(0, 2)) == 0:      # nested condition, e.g. (a | b) & c
+                c['via'] = draw(st.sampled_from(['call', 'call', 'op', 'cls']))       # env.any_of / a | b / AnyOf(env, ...)
+                if evs and draw(st.integers(0, 4)) == 0:
+                    c['kind'], c['k'] = 'atleast', draw(st.integers(1, len(evs)))
+                elif draw(st.integers(0, 2)) == 0:      # nested condition, e.g. (a | b) & c
                     c['sub'] = [{'kind': draw(st.sampled_from(['any', 'all'])),
                                  'evs': draw(st.lists(st.integers(0, nev - 1), min_size=1, max_size=3, unique=True))}
                                 for _ in range(draw(st.integers(1, 2)))]
@@ -304,6 +307,15 @@ class C18(Check):
             wcb = sorted((k, t) for (k, t) in model.cb if soft is None or t < soft)
             if hcb != wcb:
                 out.fail('callbacks', pre + ('count' if len(hcb) != len(wcb) else 'time'), 'callbacks ran %r, model %r' % (hcb, wcb))
+        # ---- the value of a condition read through its mapping interface
+        for mode, r in (('standalone', real), ('embedded', real2)):
+            if r.api_errors:
+                out.fail('condition', mode + ':value_api', 'ConditionValue: %s' % sorted(set(r.api_errors))[:3])
+            for (k, val) in r.cond_values:
+                ev = model.events[k]
+                if ev.state is None or ev.state[0] != 'ok' or norm_payload(val) != ev.state[1]:
+                    out.fail('condition', mode + ':member_value', 'a condition value holds %r for event %d; model %r' % (val, k, ev.state))
+                    break
         # ---- native watchers (embedded): same value / time as the trigger
         end = got2.get('now_inside')
         for (k, kind, t, v) in real2.watch_log:
